@@ -16,8 +16,29 @@ var eols = []string{"\r\n", "\n", "\r"}
 
 const flPad = "Xx: y\r\nXXXXXXXXX" // what follows the first line (>= 14 bytes look-ahead)
 
+var (
+	flOldReply   = []byte("SIP/2.0 486 Busy Here\r\nVia: x\r\n\r\n")
+	flOldRequest = []byte("SUBSCRIBE sip:old@example.net;x=y SIP/2.0\r\nVia: x\r\n\r\n")
+)
+
+// usedBefore gives the PFLine a history (chosen by the input's hash): it has parsed a reply, a
+// request or half a line before and was Reset(); the statement holds whatever the object did before.
+func usedBefore(fl *sipsp.PFLine, in []byte) {
+	switch core.HashBytes(in) % 5 {
+	case 0:
+		sipsp.ParseFLine(flOldReply, 0, fl)
+		fl.Reset()
+	case 1:
+		sipsp.ParseFLine(flOldRequest, 0, fl)
+		fl.Reset()
+	case 2:
+		sipsp.ParseFLine(flOldReply[:16], 0, fl)
+		fl.Reset()
+	}
+}
+
 func parseFL(in []byte) (fl sipsp.PFLine, n int, e sipsp.ErrorHdr, pan string) {
-	p, msg, _ := core.Guard(func() { n, e = sipsp.ParseFLine(in, 0, &fl) })
+	p, msg, _ := core.Guard(func() { usedBefore(&fl, in); n, e = sipsp.ParseFLine(in, 0, &fl) })
 	if p {
 		pan = msg
 	}
@@ -27,6 +48,7 @@ func parseFL(in []byte) (fl sipsp.PFLine, n int, e sipsp.ErrorHdr, pan string) {
 // parseFLChunked delivers the line byte by byte (every prefix), resuming one object.
 func parseFLChunked(in []byte) (fl sipsp.PFLine, n int, e sipsp.ErrorHdr, pan string) {
 	p, msg, _ := core.Guard(func() {
+		usedBefore(&fl, in)
 		offs := 0
 		step := 1
 		if len(in) > 400 {
